@@ -32,7 +32,9 @@ CLAIMED = {
             "returned droplet carries exactly the optimiser's result - also for unconverged runs and when the residual "
             "closure is evaluated again after the returned iterate - and that the loss handed to the optimiser is the "
             "squared deviation. 'Never worsens the fit' is then the contract's own clause (float replays measure the "
-            "squared deviation on the real package); convergence / 'unchanged up to tolerance' are not decided", "§4 C04"),
+            "squared deviation on the real package). For an image rendered from the candidate itself the residual handed "
+            "to the optimiser at the start is exactly zero in every fitted cell (the candidate is a global minimiser); "
+            "convergence / 'unchanged up to solver tolerance' are observed on the real package in float replays only", "§4 C04"),
     "C06": ("bounded symbolic execution of DropletTrackList.from_emulsion_time_course on time courses of <=3 frames x "
             "<=2 droplets (thorough: 3 droplets / 4 frames), 1D/2D, with and without periodic grid, both methods; "
             "positions, radii, times and cut-off symbolic; partition, copy-independence, consecutive-frame and "
